@@ -46,7 +46,7 @@ WIDE = {
     "C14": SIGNED + UNSIGNED + WORDS,
 }
 # operand pairs per wide type (quick, thorough); measured: ~1.5-4 ms of TLC time per judged event
-PAIRS = {"C11": (550, 6000), "C12": (1200, 10000), "C13": (450, 5000), "C14": (320, 4000)}
+PAIRS = {"C11": (450, 6000), "C12": (1100, 10000), "C13": (380, 5000), "C14": (280, 4000)}
 
 
 def _env():
@@ -131,7 +131,7 @@ def run_table(ctx, binary, prop, jobs, results):
     op = os.path.join(ctx.work, "table8.out.ndjson")
     # negative control: a copy of one row with one entry changed must be reported by the driver
     # (on all three paths); it is recognised by its marker and never reported as a finding
-    ctl = json.loads(json.dumps(rows[len(rows) // 2]))
+    ctl = json.loads(json.dumps(next(r for r in rows[len(rows) // 2:] + rows if r["op"] != "satdiv")))
     ctl["ctl"] = True
     ctl["v"][0] = 1000 if ctl["v"][0] < 1000 else 0
     write_ndjson(rp, rows + [ctl])
@@ -145,7 +145,9 @@ def run_table(ctx, binary, prop, jobs, results):
     nctl = len([o for o in out if o.get("ctl")])
     if nctl != 3:
         raise Infra("negative control: the corrupted table entry was reported %d times, expected 3 (value method, script on interpreter, script on VM)" % nctl)
-    summ["rows"] -= 1
+    skipped = set(summ.get("skipped_members") or [])      # saturating members sema does not declare
+    rows = [r for r in rows if r["t"] + "." + r["op"] not in skipped]
+    summ["rows"] = len(rows)
     summ["entries"] -= len(ctl["v"])
     summ["direct"] -= len(ctl["v"])
     summ["script_evals"] -= 2 * len(ctl["v"])
